@@ -40,6 +40,8 @@ def _expr(node, env: Dict[str, Any]):
     """-> ('fp', term) | ('bool', term) | ('str', python str) | ('fmt', [(kind, value)...])"""
     if isinstance(node, ast.Constant):
         v = node.value
+        if v is None:
+            return ('none', None)
         if isinstance(v, bool):
             return ('bool', z3.BoolVal(v))
         if isinstance(v, (int, float)):
@@ -88,6 +90,18 @@ def _expr(node, env: Dict[str, Any]):
     if isinstance(node, ast.UnaryOp) and isinstance(node.op, ast.Not):
         v = _expr(node.operand, env)
         return ('bool', z3.Not(v[1]))
+    if isinstance(node, ast.Call) and isinstance(node.func, ast.Name) and node.func.id in ('isinf', 'isnan') and len(node.args) == 1:
+        v = _expr(node.args[0], env)
+        if v[0] != 'fp':
+            raise Unsupported('isinf/isnan of a non-float')
+        return ('bool', z3.fpIsInf(v[1]) if node.func.id == 'isinf' else z3.fpIsNaN(v[1]))
+    if isinstance(node, ast.Call) and isinstance(node.func, ast.Name) and node.func.id == 'isinstance' and len(node.args) == 2:
+        key = f'isinstance:{ast.unparse(node.args[0])}:{ast.unparse(node.args[1])}'
+        if key in env:
+            return env[key]
+        raise Unsupported(key)
+    if isinstance(node, ast.Constant) and node.value is None:
+        return ('none', None)
     if isinstance(node, ast.Call) and isinstance(node.func, ast.Name) and node.func.id == 'float' and len(node.args) == 1:
         v = _expr(node.args[0], env)
         if v[0] == 'fp':
@@ -245,7 +259,50 @@ def roundtrip_query(str_fn, time_amount_fn, timeout_ms: int = 600000, extra=None
         return 'unsat', None, dt, desc
     if r != z3.sat:
         return 'unknown', None, dt, desc
-    mv = s.model().eval(m, model_completion=True)
+    return 'sat', model_float(s.model(), m), dt, desc
+
+
+def serializer_query(fn, timeout_ms: int = 60000):
+    """z3: for a float attribute value v, hpl.cli._ast_object_serializer returns None exactly when v is infinite or NaN and v itself
+    otherwise — decided for ALL doubles from the function's current source. returns (verdict, witness|None, seconds)"""
+    import time
+    fa = _func_ast(fn)
+    args = [a.arg for a in fa.args.args]
+    v = z3.FP('v', F64)
+    env = {args[2]: ('fp', v), f'isinstance:{args[2]}:Enum': ('bool', z3.BoolVal(False)), f'isinstance:{args[2]}:float': ('bool', z3.BoolVal(True))}
+    results: List[Tuple[Any, Any]] = []
+    _exec(fa.body, [Branch(z3.BoolVal(True), env)], results)
+    nonfinite = z3.Or(z3.fpIsInf(v), z3.fpIsNaN(v))
+    bad = []
+    cover = []
+    for guard, val in results:
+        cover.append(guard)
+        if val is None or val[0] == 'none':
+            bad.append(z3.And(guard, z3.Not(nonfinite)))
+        elif val[0] == 'fp':
+            bad.append(z3.And(guard, z3.Or(nonfinite, z3.Not(z3.fpEQ(val[1], v)))))
+        else:
+            bad.append(guard)
+    bad.append(z3.Not(z3.Or(*cover)) if cover else z3.BoolVal(True))
+    s = z3.Solver()
+    s.set('timeout', timeout_ms)
+    s.add(z3.Or(*bad))
+    t0 = time.time()
+    r = s.check()
+    dt = time.time() - t0
+    if r == z3.unsat:
+        return 'unsat', None, dt
+    if r != z3.sat:
+        return 'unknown', None, dt
+    return 'sat', model_float(s.model(), v), dt
+
+
+def model_float(model, term) -> float:
     import struct
+    mv = model.eval(term, model_completion=True)
+    if z3.is_true(z3.simplify(z3.fpIsNaN(mv))):
+        return float('nan')
+    if z3.is_true(z3.simplify(z3.fpIsInf(mv))):
+        return float('-inf') if z3.is_true(z3.simplify(z3.fpIsNegative(mv))) else float('inf')
     bits = z3.simplify(z3.fpToIEEEBV(mv)).as_long()
-    return 'sat', struct.unpack('<d', struct.pack('<Q', bits))[0], dt, desc
+    return struct.unpack('<d', struct.pack('<Q', bits))[0]
